@@ -31,6 +31,10 @@ func genSerialPoint(r *vlib.R) data.Point {
 			p.Origin = nul[r.Intn(len(nul))]
 		}
 	}
+	if r.Chance(0.12) {
+		// point types the application gives a meaning to: on the wire they are points like any other
+		p.Type = []string{"timeSync", "description", "tombstone", "nodeType", "value", "log", "error", "trigger", "active", "syncParent", "hrDest", "uptime", "maxMessageLength", "disabled", "period", "debug"}[r.Intn(16)]
+	}
 	if len(p.Text) > 40 {
 		p.Text = p.Text[:40]
 		for !validUTF8Prefix(p.Text) {
@@ -99,7 +103,7 @@ func flipBit(b []byte, bit int) { b[bit/8] ^= 1 << uint(bit%8) } // LSB first: U
 
 func runC17(tier string, _ []string) int {
 	c := vlib.NewCtx("C17", tier, "exploration")
-	c.SetRule("packets: all 256 sequence numbers cycled, documented subjects (blank, p.<id>, p.<id>.<parent>, phr, ack; ids >= 4 chars as real ids are UUIDs; up to the full 16 bytes), 0..8 PRNG points (hostile strings, float bit patterns, int64-ns times, data). Round trip checked per field (value at float32 precision, time by ns). Error patterns per packet, in UART bit order (LSB of each byte first): ALL single-bit flips, ALL two-bit flips (exhaustive; sampled 200000 pairs for packets > 120 bytes in quick), bursts of length 3..16 at ALL start positions with all interior patterns for length <= 10 and sampled interiors for 11..16 (thorough: exhaustive for packets <= 40 bytes). Monitor: SerialDecode returns no error AND (seq, subject, payload) differ from the original. In addition 2-8 packets are built in a row (in 12 goroutines at once) and decoded only afterwards: each must still be the packet that was built. distinct = (subject kind, number of points, error class)")
+	c.SetRule("packets: all 256 sequence numbers cycled, documented subjects (blank, p.<id>, p.<id>.<parent>, phr, ack; ids >= 4 chars as real ids are UUIDs; up to the full 16 bytes), 0..8 PRNG points (hostile strings, the point types the serial client itself uses - timeSync, log, syncParent ... -, float bit patterns, int64-ns times, data). Round trip checked per field (value at float32 precision, time by ns). Error patterns per packet, in UART bit order (LSB of each byte first): ALL single-bit flips, ALL two-bit flips (exhaustive; sampled 200000 pairs for packets > 120 bytes in quick), bursts of length 3..16 at ALL start positions with all interior patterns for length <= 10 and sampled interiors for 11..16 (thorough: exhaustive for packets <= 40 bytes). Monitor: SerialDecode returns no error AND (seq, subject, payload) differ from the original. In addition 2-8 packets are built in a row (in 12 goroutines at once) and decoded only afterwards: each must still be the packet that was built. distinct = (subject kind, number of points, error class)")
 	c.Assume("log packets (no checksum by design) are excluded; bursts are runs of consecutive bits as transmitted on a UART (LSB first), the order in which the reflected CRC-16 sees them")
 	nPk := c.N(60, 1500)
 	var decodes, rejected, roundtrips int64
